@@ -21,7 +21,19 @@ def cfg(n, nxt, edge=True):
         'ACTION_CONSTRAINT %s' % ('Edge' if edge else 'NoEdge'), ''])
 
 
+def num(x):
+    """a stored quantity as a float, however the library holds it (float, numpy scalar, length-1 array or list); anything that
+    is not ONE number is NaN (and then differs from every expectation)"""
+    import numpy as np
+    try:
+        a = np.asarray(x, dtype=float).reshape(-1)
+    except (TypeError, ValueError):
+        return float('nan')
+    return float(a[0]) if a.size == 1 else float('nan')
+
+
 def close(a, b, rel=1e-12):
+    a, b = num(a), num(b)
     return abs(a - b) <= rel * max(abs(a), abs(b)) + 1e-300
 
 
@@ -67,7 +79,10 @@ class DDAdapter(Adapter):
             w['rho'][self._keys(l['k'])] = self._value(self.phi[l['v']], arrays=False)
             return {}
         if act == 'SetDiameter':
-            w['d'][self._keys(l['k'])] = self._value(self.phi[l['v']], arrays=True)
+            # values are NUMBERS ("all positive values"): float, numpy scalar, int.  Length-1 arrays were tried as values once
+            # (they exposed the seeded change C15_e) and withdrawn: a correct vectorised Diameter (benign/B_C15) legitimately
+            # refuses to mix them with floats, so feeding them demanded more than the statement promises
+            w['d'][self._keys(l['k'])] = self._value(self.phi[l['v']], arrays=False)
             return {}
         if act in ('DensityCheck', 'DiameterCheck'):
             try:
